@@ -153,8 +153,9 @@ def observe_graph(g):
             'id': n.id, 'name': n.name, 'type': n.type,
             'asset': str(n.asset.name) if n.asset is not None else None,
             'ttc': n.ttc, 'defense_status': _f(n.defense_status),
-            'existence_status': n.existence_status, 'is_viable': n.is_viable,
-            'is_necessary': n.is_necessary,
+            'existence_status': n.existence_status,
+            'is_viable': bool(n.is_viable) if isinstance(n.is_viable, int) else n.is_viable,
+            'is_necessary': bool(n.is_necessary) if isinstance(n.is_necessary, int) else n.is_necessary,
             'tags': list(n.tags) if isinstance(n.tags, (list, tuple)) else n.tags,
             'mitre': n.mitre_info, 'extras': typed_keys(n.extras),
             'children': sorted(c.id for c in n.children),
@@ -696,7 +697,10 @@ class GraphWorld(BaseWorld):
         i = rng.randrange(len(s.ref.order))
         run = s.ref.order[i:i + rng.choice([1, 1, 2, 3, 4])]
         labs = [[rng.random() < 0.5, rng.random() < 0.6] for _ in run]
-        return {'op': 'relabel', 'g': gi, 'nodes': run, 'labels': labs}
+        op = {'op': 'relabel', 'g': gi, 'nodes': run, 'labels': labs}
+        if self.prop in ('C13', 'C12') and rng.random() < 0.15:
+            op['as_int'] = True         # the caller writes 0 / 1: falsy and truthy like False / True
+        return op
 
     def gen_prune(self, rng, gi):
         return {'op': 'prune', 'g': gi}
@@ -1272,7 +1276,11 @@ class GraphWorld(BaseWorld):
         done = 0
         for h, (v, n) in zip(op['nodes'], op['labels']):
             if h in s.nmap:
-                s.nmap[h].is_viable, s.nmap[h].is_necessary = v, n
+                if op.get('as_int'):
+                    s.nmap[h].is_viable, s.nmap[h].is_necessary = int(v), int(n)
+                    self.count('probe:labels_written_as_0_or_1')
+                else:
+                    s.nmap[h].is_viable, s.nmap[h].is_necessary = v, n
                 s.ref.nodes[h].is_viable, s.ref.nodes[h].is_necessary = v, n
                 done += 1
         if not done:
